@@ -147,6 +147,92 @@ func canonDecimalString(s string) (string, string) {
 
 // JSONLeaves interprets a document rooted at the root of the schema.
 func (u *Universe) JSONLeaves(doc any, ietf bool) (map[string]string, []string) {
+	l, _, p := u.JSONLeavesPaths(doc, ietf)
+	return l, p
+}
+
+// pathSink collects the structured path of every leaf (key "\x00paths" is never a canonical path).
+type pathSink map[string]Path
+
+// JSONLeavesPaths is JSONLeaves that also returns the structured path of every leaf.
+func (u *Universe) JSONLeavesPaths(doc any, ietf bool) (map[string]string, map[string]Path, []string) {
+	leaves := map[string]string{}
+	paths := map[string]Path{}
+	var problems []string
+	if doc == nil {
+		return leaves, paths, nil
+	}
+	m, ok := doc.(map[string]any)
+	if !ok {
+		return leaves, paths, []string{fmt.Sprintf("root is %T, not an object", doc)}
+	}
+	u.jsonContainer(m, nil, nil, "", ietf, leaves, &problems)
+	// the walker builds every canonical key from a Path; rebuild them (cheap, documents are small)
+	u.jsonPaths(m, nil, nil, paths)
+	sort.Strings(problems)
+	return leaves, paths, problems
+}
+
+// jsonPaths walks the document like jsonContainer and records canonical path -> structured path of the leaves.
+func (u *Universe) jsonPaths(m map[string]any, keyless []string, path Path, out map[string]Path) {
+	for member, v := range m {
+		name := member
+		if i := strings.Index(member, ":"); i >= 0 {
+			name = member[i+1:]
+		}
+		ckl := append(append([]string{}, keyless...), name)
+		ni, err := u.Node(ckl)
+		if err != nil || name == "" {
+			continue
+		}
+		cpath := append(append(Path{}, path...), PE{Name: name})
+		switch ni.se.GetSchema().(type) {
+		case *sdcpb.SchemaElem_Container:
+			if len(ni.keys) > 0 {
+				arr, _ := v.([]any)
+				for _, e := range arr {
+					em, ok := e.(map[string]any)
+					if !ok {
+						continue
+					}
+					epath := append(Path{}, cpath...)
+					complete := true
+					for _, k := range ni.keys {
+						kv, ok := em[k]
+						if !ok {
+							kv, ok = em[ni.module+":"+k]
+						}
+						if !ok {
+							complete = false
+							continue
+						}
+						kni, _ := u.Node(append(append([]string{}, ckl...), k))
+						ks := fmt.Sprintf("%v", kv)
+						if kni != nil {
+							ks, _ = canonScalar(kv, kni.leafType(), false)
+						}
+						epath[len(epath)-1].Keys = append(epath[len(epath)-1].Keys, [2]string{k, ks})
+					}
+					if complete {
+						u.jsonPaths(em, ckl, epath, out)
+					}
+				}
+				continue
+			}
+			if cm, ok := v.(map[string]any); ok {
+				if len(cm) == 0 {
+					out[cpath.String()] = cpath
+				} else {
+					u.jsonPaths(cm, ckl, cpath, out)
+				}
+			}
+		default:
+			out[cpath.String()] = cpath
+		}
+	}
+}
+
+func (u *Universe) jsonLeavesOld(doc any, ietf bool) (map[string]string, []string) {
 	leaves := map[string]string{}
 	var problems []string
 	if doc == nil {
